@@ -241,7 +241,9 @@ def _random_records(ctx, count):
             obs = None
             inp = dict(n=n, spikes=spikes, nsw=nsw, dt=dt, fk=fk)
             with ctx.guard('route', inp):
-                obs = run_routes(ctx, d, reader, n, spikes, nsw, fk, SDTYPES[rid % 4], tag='r%d' % rid)
+                # (Python-list channel lists, with their -1 entries, on every other recording)
+                obs = run_routes(ctx, d, reader, n, spikes, nsw, fk, SDTYPES[rid % 4], tag='r%d' % rid,
+                                 list_channels=bool(rid % 2))
             if rd is not None:
                 rd.close()
             if obs is None:
